@@ -849,6 +849,9 @@ func aceKey(kind, text string) string {
 	return logRE.ReplaceAllString(NormACE(kind, text), "")
 }
 
+// AceKey is the entry without its log option (see aceKey).
+func AceKey(kind, text string) string { return aceKey(kind, text) }
+
 type variant struct{ canon, alt string }
 
 var portVariants = []variant{
